@@ -19,7 +19,8 @@ RULE = (
     "ownership-flag cases on linear inputs, independent random pairs; sigma0 = random acyclic prior or the result of a "
     "previous real unify. Plus single-pass / exhaustive substitution and linearity requests, and check_type_against "
     "requests (generic function type over bound variables against an expected function type with inference variables, derived "
-    "from a common instance), and whole generic-call programs from the corpus. Non-trivial = a unify case where both sides "
+    "from a common instance), and generated generic-call programs through the real check() (declared generic functions called with variables, tuple literals, "
+    "literals, function names, nested calls; synthesis and checking position), plus corpus programs. Non-trivial = a unify case where both sides "
     "contain variables or sigma0 is non-empty, or a check_type_against case whose expected type has variables; distinct by "
     "canonical request line"
 )
@@ -41,8 +42,9 @@ ASSUMPTIONS = [
     "ExistentialVar._fresh_id is reset before each call so that the fresh variables are known",
 ]
 UNMODELLED = [
-    "check_call / synthesize_call / type_check_args (only check_type_against's parametrised path and two corpus programs), "
-    "check_inst (parameter bounds), try_coerce_to, Instantiator on nested generic function types (raises)",
+    "check_call / synthesize_call / type_check_args / visit_Tuple / check_inst have no Lean model: they are covered by the "
+    "program-level generic-call tie (real check() vs the Robinson oracle) only; try_coerce_to (numeric coercions: such cases are "
+    "classified unknown), bidirectional inference through return-only type variables, Instantiator on nested generic function types",
     "FunctionType.unitary_flags (ignored by unify, dropped by FunctionType.transform; generator always uses NoFlags)",
     "Substituter on function types carrying explicit comptime_args: FunctionType.transform rebuilds the type without them "
     "(0.21.6; upstream 1.0.4 keeps them) — the substitution requests use default comptime args only; unify requests cover explicit ones",
@@ -61,8 +63,8 @@ MANIFEST = {
     "(any environment), and for the property's literal flag reading restricted to assignments that keep linearity — with "
     "machine-checked counterexamples showing the restriction is necessary; soundness of check_type_against for generic "
     "function values. Model tied to ty.py/subst.py/expr_checker.py on every run by same-input correspondence on the real "
-    "guppylang classes (quick 5000 unify + 1500 check_type_against cases, thorough 400000 + 40000; exact equality of returned "
-    "dicts) with an independent Robinson unifier as property oracle (unifiable or not, result unifies, result most general, "
+    "guppylang classes (quick 5000 unify + 1500 check_type_against + 720 generic-call programs through check(), thorough 400000 + 40000 + 48000; "
+    "exact equality of returned dicts) with an independent Robinson unifier as property oracle (unifiable or not, result unifies, result most general, "
     "principal instantiation).",
     "level_note": "Trusted: Lean kernel + propext/Classical.choice/Quot.sound; my statement of solutions/acyclicity/"
     "well-sortedness/LinEq; the encoder from guppylang objects to model terms; the correspondence is sampling. Three defects fixed "
@@ -919,6 +921,371 @@ def oracle_cta(exp, act, kinds):
             return "reject", th, unq, fresh
     return "accept", th, unq, fresh
 
+
+# ---------------------------------------------------------------------------- generic CALLS through the real check()
+# Declared generic functions called with generated argument expressions; the whole checker runs
+# (check_call / synthesize_call / type_check_args / visit_Tuple / check_type_against / check_inst).
+# Oracle: bottom-up typing of the argument expressions, then the independent Robinson unifier over
+# (declared parameter types with fresh variables) ≐ (argument types), then the parameter bounds.
+GC_PRELUDE = (
+    "from collections.abc import Callable\n"
+    "from guppylang.std.option import Option\n"
+)
+T_INT, T_FLOAT, T_BOOL = ("num", 2), ("num", 3), ("op", 0, ())
+GC_ERRS = ("TypeMismatchError", "NonLinearInstantiateError", "WrongNumberOfArgsError")
+
+
+def gc_fn(ins, out):
+    return ("fn", tuple(0 for _ in ins), 0, tuple(("ta", x) for x in list(ins) + [out]))
+
+
+def gc_src(a):
+    """abstract type -> Guppy annotation"""
+    k = a[0]
+    if a == T_INT:
+        return "int"
+    if a == T_FLOAT:
+        return "float"
+    if a == T_BOOL:
+        return "bool"
+    if k == "v":
+        return f"T{a[1] // 2}" if a[1] % 2 == 0 else f"n{a[1] // 2}"
+    if k == "cv":
+        return str(VALS[a[2]])
+    if k == "tup":
+        return "tuple[" + ", ".join(gc_src(x[1]) for x in a[1]) + "]"
+    if k == "op" and a[1] == 2:
+        return f"array[{gc_src(a[2][0][1])}, {gc_src(a[2][1][1])}]"
+    if k == "op" and a[1] == 3:
+        return f"Option[{gc_src(a[2][0][1])}]"
+    if k == "fn":
+        n = len(a[1])
+        return "Callable[[" + ", ".join(gc_src(x[1]) for x in a[3][:n]) + "], " + gc_src(a[3][n][1]) + "]"
+    raise AssertionError(a)
+
+
+def gc_copyable(a):
+    c, d = o_copy_drop(a)
+    return c and d
+
+
+class GCGen:
+    """one program: callee declarations (generic and closed) + caller cases"""
+
+    def __init__(self, rng):
+        self.r = rng
+        self.callees = []     # (name, tvars (codes), params, out)
+        self.closed_fns = {}  # closed fn type -> name
+
+    # ---- closed types
+    def closed(self, depth, allow_arr=True):
+        r = self.r
+        x = r.random()
+        if depth <= 0 or x < 0.5:
+            return r.choice([T_INT, T_INT, T_BOOL, T_BOOL, T_FLOAT] if r.random() < 0.15 else [T_INT, T_INT, T_BOOL])
+        c = r.randrange(5)
+        if c <= 1:
+            return ("tup", tuple(("ta", self.closed(depth - 1, allow_arr)) for _ in range(r.choice([2, 2, 3]))))
+        if c == 2 and allow_arr:
+            return ("op", 2, (("ta", self.closed(depth - 1, False)), ("ca", ("cv", 0, r.choice([2, 3])))))
+        if c == 3:
+            return ("op", 3, (("ta", self.closed(depth - 1, False)),))
+        return gc_fn([self.closed(0)], self.closed(0))
+
+    # ---- callee signatures
+    def sig_ty(self, tv, cv, depth):
+        r = self.r
+        x = r.random()
+        if x < 0.45:
+            return ("v", r.choice(tv))
+        if depth <= 0 or x < 0.55:
+            return r.choice([T_INT, T_BOOL])
+        c = r.randrange(5)
+        if c <= 1:
+            return ("tup", tuple(("ta", self.sig_ty(tv, cv, depth - 1)) for _ in range(r.choice([2, 2, 3]))))
+        if c == 2:
+            size = ("v", r.choice(cv)) if cv and r.random() < 0.7 else ("cv", 0, r.choice([2, 3]))
+            el = ("v", r.choice(tv)) if r.random() < 0.7 else T_INT
+            return ("op", 2, (("ta", el), ("ca", size)))
+        if c == 3:
+            return ("op", 3, (("ta", self.sig_ty(tv, cv, 0)),))
+        return gc_fn([self.sig_ty(tv, cv, 0)], self.sig_ty(tv, cv, 0))
+
+    def new_callee(self):
+        r = self.r
+        tv = [2 * i for i in range(r.choice([1, 1, 2]))]
+        cv = [2 * 5 + 1] if r.random() < 0.4 else []
+        for _ in range(20):
+            params = [self.sig_ty(tv, cv, 2) for _ in range(r.choice([1, 2, 2, 3]))]
+            used = set()
+            for q in params:
+                used.update(o_vars(q))
+            if used == set(tv + cv):
+                break
+        else:
+            params = [("v", v) for v in tv] + [("op", 2, (("ta", T_INT), ("ca", ("v", v)))) for v in cv]
+        outs = [("v", v) for v in tv] + [T_INT, T_BOOL, ("tup", (("ta", ("v", tv[0])), ("ta", T_INT))), ("op", 3, (("ta", ("v", tv[-1])),))]
+        out = r.choice(outs)
+        name = f"f{len(self.callees)}"
+        self.callees.append((name, tuple(tv + cv), tuple(params), out))
+        return len(self.callees) - 1
+
+    def closed_fn_name(self, ty):
+        if ty not in self.closed_fns:
+            self.closed_fns[ty] = f"g{len(self.closed_fns)}"
+        return self.closed_fns[ty]
+
+    # ---- expressions of (roughly) a wanted closed type
+    def expr(self, ty, depth):
+        r = self.r
+        if r.random() < 0.06:
+            ty = self.closed(1)       # near-miss: some other type
+        if ty[0] == "fn":
+            return ("fname", ty)
+        x = r.random()
+        if ty[0] == "tup" and x < 0.6 and all(gc_copyable(c[1]) for c in ty[1]):
+            return ("tuple", tuple(self.expr(c[1], depth - 1) for c in ty[1]))
+        if ty in (T_INT, T_BOOL) and x < 0.25:
+            return ("lit", ty)
+        if depth > 0 and x > 0.75 and gc_copyable(ty) and self.callees:
+            # nested call of a generic function whose result can be ty
+            ci = r.randrange(len(self.callees))
+            e = self.call_for(ci, ty, depth - 1)
+            if e is not None:
+                return e
+        return ("var", ty)
+
+    def call_for(self, ci, want, depth):
+        """a call of callee ci, with its variables instantiated so that the result is `want` when possible"""
+        r = self.r
+        name, vs, params, out = self.callees[ci]
+        th = robinson([(out, want)]) if want is not None else {}
+        if th is None:
+            if want is not None and r.random() < 0.8:
+                return None
+            th = {}
+        rho = dict(th)
+        for v in vs:
+            if v not in rho or o_vars(rho[v]):
+                rho[v] = (self.closed(1) if r.random() < 0.9 else self.closed(2)) if v % 2 == 0 else ("cv", 0, r.choice([2, 3]))
+        if any(o_vars(o_once(rho, q)) for q in params):
+            return None
+        args = [self.expr(o_once(rho, q), depth) for q in params]
+        if r.random() < 0.04:
+            if r.random() < 0.5 and len(args) > 1:
+                args.pop()
+            else:
+                args.append(("lit", T_INT))
+        return ("call", ci, tuple(args))
+
+    def case(self):
+        r = self.r
+        ci = r.randrange(len(self.callees))
+        e = None
+        while e is None:
+            e = self.call_for(ci, None, 2)
+        mode = r.choice(["synth", "check", "check"])
+        return e, mode
+
+
+def gc_eval(callees, e, counter):
+    """oracle typing: ('ok', type) | ('err', classes).  Internally every sub-expression gets a type (a fresh wildcard
+    variable where it is ill-typed) so that all problems the checker can meet first, in its evaluation order, are collected."""
+    ty, errs = _gc_eval(callees, e, counter)
+    return ("err", errs) if errs else ("ok", ty)
+
+
+def _gc_wild(counter):
+    counter[0] += 1
+    return ("v", 2 * (900000 + counter[0]))
+
+
+def _gc_eval(callees, e, counter):
+    k = e[0]
+    if k in ("var", "lit", "fname"):
+        return e[1], set()
+    if k == "tuple":
+        tys, errs = [], set()
+        for x in e[1]:
+            t, er = _gc_eval(callees, x, counter)
+            tys.append(t)
+            errs |= er
+        return ("tup", tuple(("ta", t) for t in tys)), errs
+    if k == "call":
+        name, vs, params, out = callees[e[1]]
+        errs = set()
+        tys = []
+        for x in e[2]:
+            t, er = _gc_eval(callees, x, counter)
+            tys.append(t)
+            errs |= er
+        if len(e[2]) != len(params):
+            errs.add("WrongNumberOfArgsError")
+            return _gc_wild(counter), errs
+        counter[0] += 1
+        ren = {v: ("v", 2 * (5000 + 10 * counter[0] + j) + v % 2) for j, v in enumerate(vs)}
+        th = robinson([(o_once(ren, q), t) for q, t in zip(params, tys)])
+        if th is None:
+            errs.add("TypeMismatchError")
+            return _gc_wild(counter), errs
+        if errs:
+            return _gc_wild(counter), errs
+        for v in vs:
+            val = o_once(th, ren[v])
+            if v % 2 == 0 and not gc_copyable(val):
+                return _gc_wild(counter), {"NonLinearInstantiateError"}
+        return o_once(th, o_once(ren, out)), set()
+    raise AssertionError(e)
+
+
+def gc_kinds(a, acc):
+    if a[0] == "num":
+        acc.add(a[1])
+    for c in kids(a):
+        gc_kinds(c, acc)
+
+
+def gc_expr_kinds(callees, e, acc):
+    k = e[0]
+    if k in ("var", "lit", "fname"):
+        gc_kinds(e[1], acc)
+    elif k == "tuple":
+        for x in e[1]:
+            gc_expr_kinds(callees, x, acc)
+    else:
+        _n, _vs, params, out = callees[e[1]]
+        for q in list(params) + [out]:
+            gc_kinds(q, acc)
+        for x in e[2]:
+            gc_expr_kinds(callees, x, acc)
+
+
+def gc_render(callees, closed_fns, e, mode, ret, cname):
+    """source of the declarations and of one caller"""
+    params = []
+
+    def ex(e):
+        k = e[0]
+        if k == "var":
+            params.append(f"v{len(params)}: {gc_src(e[1])}")
+            return f"v{len(params) - 1}"
+        if k == "lit":
+            return "1" if e[1] == T_INT else "True"
+        if k == "fname":
+            return closed_fns[e[1]]
+        if k == "tuple":
+            return "(" + ", ".join(ex(x) for x in e[1]) + ("," if len(e[1]) == 1 else "") + ")"
+        return callees[e[1]][0] + "(" + ", ".join(ex(x) for x in e[2]) + ")"
+
+    body = ex(e)
+    if mode == "synth":
+        return f"@guppy\ndef {cname}({', '.join(params)}) -> None:\n    z = {body}\n\n"
+    return f"@guppy\ndef {cname}({', '.join(params)}) -> {gc_src(ret)}:\n    return {body}\n\n"
+
+
+def gc_decls(callees, closed_fns):
+    tv, cv = set(), set()
+    for _n, vs, _p, _o in callees:
+        for v in vs:
+            (tv if v % 2 == 0 else cv).add(v)
+    out = "".join(f'T{v // 2} = guppy.type_var("T{v // 2}")\n' for v in sorted(tv))
+    out += "".join(f'n{v // 2} = guppy.nat_var("n{v // 2}")\n' for v in sorted(cv))
+    out += "\n"
+    for name, _vs, params, o in callees:
+        out += f"@guppy.declare\ndef {name}(" + ", ".join(f"a{i}: {gc_src(q)}" for i, q in enumerate(params)) + f") -> {gc_src(o)}: ...\n\n"
+    for ty, name in closed_fns.items():
+        n = len(ty[1])
+        out += f"@guppy.declare\ndef {name}(" + ", ".join(f"a{i}: {gc_src(x[1])}" for i, x in enumerate(ty[3][:n])) + f") -> {gc_src(ty[3][n][1])}: ...\n\n"
+    return out
+
+
+def gc_closed_fns_of(e, acc):
+    if e[0] == "fname":
+        acc.setdefault(e[1], f"g{len(acc)}")
+    elif e[0] == "tuple":
+        for x in e[1]:
+            gc_closed_fns_of(x, acc)
+    elif e[0] == "call":
+        for x in e[2]:
+            gc_closed_fns_of(x, acc)
+
+
+def gc_judge(callees, e, mode, ret):
+    """-> (verdict accept/reject/unknown, admissible error classes, result type or None)"""
+    res = gc_eval(callees, e, [0])
+    kinds = set()
+    gc_expr_kinds(callees, e, kinds)
+    if mode == "check":
+        gc_kinds(ret, kinds)
+    mixed = len(kinds) > 1
+    if res[0] == "err":
+        return ("unknown" if mixed and "TypeMismatchError" in res[1] else "reject"), res[1], None
+    if mode == "check" and o_erase(res[1]) != o_erase(ret):
+        return ("unknown" if mixed else "reject"), {"TypeMismatchError"}, res[1]
+    return "accept", set(), res[1]
+
+
+def gc_run(ctx, callees, cases):
+    """cases: list of (expr, mode, ret).  Runs the real checker on every caller, compares with the oracle."""
+    import feed
+    closed_fns = {}
+    for e, _m, _r in cases:
+        gc_closed_fns_of(e, closed_fns)
+    decls = gc_decls(callees, closed_fns)
+    src = decls + "".join(gc_render(callees, closed_fns, e, mode, ret, f"c{i}") for i, (e, mode, ret) in enumerate(cases))
+    try:
+        m = feed.load(src, prelude=feed.PRELUDE + GC_PRELUDE)
+    except Exception as ex:  # noqa: BLE001
+        ctx.violation("program-load:" + src, f"generated generic-call program does not load: {type(ex).__name__}: {ex}",
+                      {"program": src}, found_input=False)
+        return
+    try:
+        for i, (e, mode, ret) in enumerate(cases):
+            verdict, classes, rty = gc_judge(callees, e, mode, ret)
+            out = feed.check_outcome(getattr(m, f"c{i}"))
+            got = out[0] if out[0] == "ok" else ("user:" + feed.err_class(out[1]) if out[0] == "user" else "crash:" + type(out[1]).__name__)
+            one = decls + gc_render(callees, closed_fns, e, mode, ret, "main")
+            ctx.count("gcall:" + one, nontrivial=True, kind=f"gcall:{got}:oracle-{verdict}")
+            bad = None
+            if out[0] == "crash":
+                bad = f"the checker crashed ({type(out[1]).__name__}: {out[1]})"
+            elif verdict == "accept" and got != "ok":
+                bad = f"a fitting instantiation exists (result type {gc_src(rty)}) but the call is rejected with {got}"
+            elif verdict == "reject" and got == "ok":
+                bad = "no instantiation of the parameters fits the arguments (expected " + "/".join(sorted(classes)) + ") but the call is accepted"
+            elif verdict == "reject" and got.split(":", 1)[1] not in classes:
+                bad = f"rejected with {got}, expected one of " + "/".join(sorted(classes))
+            if bad:
+                ctx.violation("gcall:" + one, f"generic call: {bad}\n{one}",
+                              {"gcall": {"callees": callees, "expr": e, "mode": mode, "ret": ret}, "program": one, "got": got,
+                               "oracle": verdict, "classes": sorted(classes)})
+    finally:
+        feed.unload(m)
+
+
+def gc_tie(ctx):
+    rng = ctx.rng
+    # corpus / replay
+    fixed = [c["gcall"] for _fn, c in _corpus_other("gcall")]
+    if ctx.replay_in and "gcall" in ctx.replay_in.get("replay", {}):
+        fixed.append(ctx.replay_in["replay"]["gcall"])
+    for g in fixed:
+        gc_run(ctx, _tup(g["callees"]), [(_tup(g["expr"]), g["mode"], _tup(g["ret"]))])
+    n_prog = ctx.n(60, 4000)
+    for _ in range(n_prog):
+        gg = GCGen(rng)
+        for _k in range(rng.choice([2, 3, 4])):
+            gg.new_callee()
+        cases = []
+        for _k in range(12):
+            e, mode = gg.case()
+            res = gc_eval(gg.callees, e, [0])
+            ret = res[1] if res[0] == "ok" else T_INT
+            if mode == "check" and rng.random() < 0.2:
+                ret = gg.closed(1)
+            cases.append((e, mode, ret))
+        gc_run(ctx, tuple(gg.callees), cases)
+
 # ---------------------------------------------------------------------------- running the real code
 def real_unify(S, T, SG0):
     """-> ('ok', [(code, term)...]) | ('fail',) | ('exception', name)"""
@@ -969,6 +1336,49 @@ def _corpus():
                         continue
                     out.append((fn, _tup(c["s"]), _tup(c["t"]), [(_v, _tup(_u)) for _v, _u in c["sigma0"]], c.get("literal")))
     return out
+
+
+def judge_unify(cs, ct, csg, rr, verdict, th):
+    """real outcome against the oracle: error text or None"""
+    if rr[0] == "exception":
+        return f"unify raised {rr[1]}"
+    if verdict == "fail" and rr[0] == "ok":
+        return "unify returned a substitution although no unifier exists"
+    if verdict == "ok" and rr[0] == "fail":
+        return "unify returned None although a unifier exists"
+    if rr[0] == "ok":
+        return check_result(cs, ct, csg, rr[1], th, flags_decisive=(verdict == "ok"))
+    return None
+
+
+def search(ctx, why):
+    """Something no longer checks and the tie found no failing input: look harder on the REAL code with the
+    oracle only (no model), with fresh generator parameters."""
+    from guppylang_internals.error import InternalGuppyError
+    rng = ctx.rng
+    tried = 0
+    for _round in range(ctx.n(6, 20)):
+        gen = Gen(rng)
+        for _ in range(5000):
+            s, t, sg0 = gen.case()
+            if not acyclic(sg0):
+                continue
+            try:
+                real_objs, (cs, ct, csg) = build_case(s, t, sg0)
+            except InternalGuppyError:
+                continue
+            tried += 1
+            rr = real_unify(*real_objs)
+            verdict, th = oracle(cs, ct, csg)
+            bad = judge_unify(cs, ct, csg, rr, verdict, th)
+            if bad:
+                line = f"(unify {env_of([cs, ct] + [u_ for _, u_ in csg] + [('v', v) for v, _ in csg])} {sx(cs)} {sx(ct)} {sx_subst(csg)})"
+                ctx.violation("input:" + line, f"{bad}: unify({sx(cs)}, {sx(ct)}, {sx_subst(csg)}) = {show_real(rr)}",
+                              {"case": {"s": cs, "t": ct, "sigma0": csg}, "line": line, "real": show_real(rr),
+                               "oracle": verdict, "origin": "search", "why": why[:3]})
+                ctx.extra["search_cases"] = tried
+                return
+    ctx.extra["search_cases"] = tried
 
 
 def _corpus_other(kind):
@@ -1110,15 +1520,7 @@ def tie(ctx):
         ctx.count(line, nontrivial=nontriv, kind=f"unify:{rr[0]}:oracle-{verdict}" + (":" + oracle.why if verdict != "ok" else ""))
         case = {"s": cs, "t": ct, "sigma0": csg}
         key = "input:" + line
-        bad = None
-        if rr[0] == "exception":
-            bad = f"unify raised {rr[1]}"
-        elif verdict == "fail" and rr[0] == "ok":
-            bad = "unify returned a substitution although no unifier exists"
-        elif verdict == "ok" and rr[0] == "fail":
-            bad = "unify returned None although a unifier exists"
-        elif rr[0] == "ok":
-            bad = check_result(cs, ct, csg, rr[1], th, flags_decisive=(verdict == "ok"))
+        bad = judge_unify(cs, ct, csg, rr, verdict, th)
         if bad:
             ctx.violation(key, f"{bad}: unify({sx(cs)}, {sx(ct)}, {sx_subst(csg)}) = {real}",
                           {"case": case, "line": line, "real": real, "oracle": verdict, "model": m_, "origin": origin})
@@ -1181,6 +1583,9 @@ def tie(ctx):
                            "cta": {"exp": cexp, "act": cact, "kinds": kinds}})
         if real != m_:
             ctx.broke(f"correspondence Model/Unify.lean checkAgainst vs check_type_against on `{line}` (real={real} model={m_})")
+
+    # ---- generated generic-call programs through the real check()
+    gc_tie(ctx)
 
     # ---- whole programs from the corpus (generic calls end to end)
     import feed
